@@ -833,10 +833,11 @@ class _InternalBaseTracer(_InternalBaseTracerSuper, metaclass=MetaTracerStateMac
             for _ in range(num_extra_lookback_frames):
                 frame = frame.f_back
                 assert frame is not None
+            if local_env is None:
+                # as for the builtins: with only globals given, they are the locals too
+                local_env = frame.f_locals if global_env is None else global_env
             if global_env is None:
                 global_env = frame.f_globals
-            if local_env is None:
-                local_env = frame.f_locals
         return global_env, local_env
 
     def eval(
